@@ -15,6 +15,7 @@ var Registry = map[string]func(*core.Run){
 	"C11": C11,
 	"C12": C12,
 	"C14": C14,
+	"C15": C15,
 	"C16": C16,
 	"C17": C17,
 	"C18": C18,
